@@ -650,7 +650,7 @@ func runChainCase(tw *traceWriter, cs chainCase, rid *int) {
 		prov.mu.Unlock()
 		curLog = nil
 		body := rec.Body.Bytes()
-		ce := rec.Header().Get("Content-Encoding")
+		ce := wireHeader(rec).Get("Content-Encoding")
 		if cs.Entry == "NET" {
 			if netResp == nil {
 				fatal("no response from the test server")
